@@ -37,7 +37,7 @@ def one_case(job, variant, step_lines, probe_line):
         if st[0] == "exec":
             steps.append(("exec", simenv.parse_commands([st[1]])[0]))
         else:
-            steps.append(("rollback", st[1]))
+            steps.append((st[0], st[1]))       # "rollback" | "reload_same" (a prefix of its own logs reloaded into the same engine)
     txt, final, rec = h_engine.scenario_steps(job, variant, steps)
     finding = None
     # implementation: engine after the interleaving vs fresh engine with the survivors
@@ -45,6 +45,8 @@ def one_case(job, variant, step_lines, probe_line):
     for st in steps:
         if st[0] == "exec":
             e1.exec(st[1])
+        elif st[0] == "reload_same":
+            e1.reload(list(e1.operation_logs())[:st[1] + 1])
         else:
             e1.rollback(st[1])
     e2 = simenv.make_engine(job, variant)
@@ -74,7 +76,7 @@ def gen_random(ctx, job, variant, n):
     while len(steps) < n:
         if length > 0 and rng.random() < 0.25:
             i = rng.randint(0, length)
-            steps.append(("rollback", i))
+            steps.append(("rollback" if rng.random() < 0.75 else "reload_same", i))
             length = min(length, i)
         else:
             steps.append(("exec", simenv.random_command_text(rng, job, variant)))
